@@ -340,7 +340,20 @@ def r3(ctx, R):
         loop = ctx.m.parent.get(st)
         while loop is not None and not isinstance(loop, ast.For):
             loop = ctx.m.parent.get(loop)
-        opt = unparse(loop.iter) if loop is not None else ""
+        from .shared import deref as _deref
+
+        opt = unparse(_deref(ctx, resolver, loop.iter)) if loop is not None else ""
+        if "excl_paths" in opt:
+            # exclusions name files as well as directories (the file enumeration tests every file path against them)
+            par = ctx.m.parent.get(c)
+            dirs_only = isinstance(par, ast.Call) and isinstance(par.func, (ast.Name, ast.Attribute)) and (par.func.id if isinstance(par.func, ast.Name) else par.func.attr) in ("only_dirs", "isdir", "is_dir")
+            file_tests = [x for g_ in ctx.m.funcs.values() for x in ast.walk(g_.node) if isinstance(x, ast.Compare) and len(x.ops) == 1 and isinstance(x.ops[0], (ast.In, ast.NotIn)) and unparse(x.comparators[0]).endswith("excl_paths") and g_.qual not in (adder.qual, resolver.qual)]
+            if dirs_only and file_tests:
+                R.violation("C18.R3", resolver.short, key(resolver, st) + " :: files and directories", loc(resolver, c), "the expanded exclusions are reduced to directories: an excluded *file* (a literal path or a glob such as **/*_old.f90) is dropped from excl_paths and therefore still indexed")
+            elif dirs_only:
+                R.undecided("C18.R3", resolver.short, key(resolver, st) + " :: files and directories", loc(resolver, c), "exclusions reduced to directories and no per-file exclusion test found")
+            else:
+                R.ok("C18.R3", resolver.short, key(resolver, st) + " :: files and directories", loc(resolver, c), "exclusions keep files and directories")
         if "source_dirs" in opt or "include_dirs" in opt:
             par = ctx.m.parent.get(c)
             wrapped = isinstance(par, ast.Call) and isinstance(par.func, ast.Name) and par.func.id == "only_dirs"
